@@ -183,7 +183,7 @@ def install_fs(ex, fs):
             raise IoErr('NotADirectory')
         pre = t.rstrip('/') + '/'
         kids = [q for q in fs.nodes if q.startswith(pre) and '/' not in q[len(pre):] and q != t]
-        return M.PyIter(iter([ok(Opaque('DirEntry ' + k)) for k in sorted(kids)]), len(kids))
+        return M.PyIter(iter([ok(StdDirEntry(k[len(pre):])) for k in sorted(kids)]), len(kids))
 
     def file_create(p):
         t = fs.resolve(P(p), True)        # open(O_CREAT|O_TRUNC) follows a symlink in the final component
@@ -336,6 +336,7 @@ def install_fs(ex, fs):
             raise IoErr('NotFound')
         return MetaV(n.kind)
     add(r'(?:std::fs::)?symlink_metadata::<.*>', wrap(symlink_metadata))
+    add(r'(?:std::fs::)?DirEntry::file_name', lambda ex, c, a: deref(a[0]).name if isinstance(deref(a[0]), StdDirEntry) else NotImplemented)
     add(r'(?:std::fs::)?metadata::<.*>', wrap(metadata))
     add(r'(?:std::fs::)?Metadata::file_type', lambda ex, c, a: deref(a[0]))
     add(r'(?:std::fs::)?(?:Metadata|FileType)::is_symlink', lambda ex, c, a: deref(a[0]).kind == 'symlink')
@@ -373,6 +374,13 @@ def install_fs(ex, fs):
     add(r'<(?:std::io::)?Error as From<(?:std::io::)?ErrorKind>>::from', lambda ex, c, a: IoErrorV(kind_name(ex, a[0])))
     add(r'<(?:std::fs::)?ReadDir as Iterator>::next', lambda ex, c, a: deref(a[0]).next())
     add(r'(?:std::collections::)?HashMap::<(?:apath::)?Apath, (?:std::io::)?ErrorKind>::get::<.*>', lambda ex, c, a: none())
+
+
+class StdDirEntry(Model):
+    ty = 'DirEntry'
+
+    def __init__(self, name):
+        self.name = name
 
 
 class LocalTransportV(Model):
@@ -530,6 +538,10 @@ def setup_fs(ex, dest_state='absent', chown_permitted=True):
     if dest_state == 'populated':
         fs.put_file(DEST + '/existing', [('old', 0, 3)])
         fs.put_file(DEST + '/p/f', [('precious', 0, 8)])
+    if dest_state == 'only-dotfiles':
+        # nothing but names that start with a dot (a home directory skeleton): still not empty
+        fs.put_file(DEST + '/.profile', [('old', 0, 3)])
+        fs.put_file(DEST + '/.config/app', [('old2', 0, 3)])
     if dest_state == 'only-symlinks':
         # nothing but symbolic links: one of them named like an archived file and pointing outside the destination
         fs.mkdirs(DEST)
@@ -787,14 +799,14 @@ def make_contain(prog, stitched):
                        E('/a/sub/sentinel2', 'File', size=6, cls=2, mode=mode, user=u, sec=6),
                        E('/a/sub/y', 'File', size=4, cls=3, mode=0o644, sec=7),
                        E('/a/x', 'File', size=5, cls=1, mode=mode, user=u, sec=4)]
-                new = [E('/', 'Dir', mode=0o755, sec=1), E('/a', 'Symlink', target=tgt, user=u, sec=9)]
+                new = [E('/', 'Dir', mode=0o755, sec=1), E('/a', 'Symlink', target=tgt, user=u, sec=9, mode=0o777)]
                 put_band(ex, st, 0, old)
                 put_band(ex, st, 1, new, closed=False)
                 band = 1
                 entries = None
                 ex.env['bands'] = [(0, True, old), (1, False, new)]
             else:
-                entries = [E('/', 'Dir', mode=0o755, sec=1), E('/d', 'Dir', mode=0o755, user=u, sec=3), E('/l', 'Symlink', target=tgt, user=u, sec=9),
+                entries = [E('/', 'Dir', mode=0o755, sec=1), E('/d', 'Dir', mode=0o755, user=u, sec=3), E('/l', 'Symlink', target=tgt, user=u, sec=9, mode=0o777),
                            E('/z', 'File', size=5, cls=1, mode=mode, user=u, sec=4)]
                 put_band(ex, st, 0, entries)
                 band = 0
@@ -828,7 +840,7 @@ def make_contain(prog, stitched):
     return mk_
 
 
-DEST_STATES = ['absent', 'empty', 'populated', 'only-symlinks']
+DEST_STATES = ['absent', 'empty', 'populated', 'only-symlinks', 'only-dotfiles']
 
 
 def make_refuse(prog):
@@ -852,7 +864,7 @@ def make_refuse(prog):
             before = {p: n.state() for p, n in fs.nodes.items()}
             r = run_restore(ex, ar, DEST, restore_options(ex, overwrite=overwrite, subtree=subtree))
             problems = []
-            if state in ('populated', 'only-symlinks') and not overwrite:
+            if state in ('populated', 'only-symlinks', 'only-dotfiles') and not overwrite:
                 if r.variant == 0 or variant_name(ex, r.fields[0]) != 'DestinationNotEmpty':
                     problems.append('restore into a non-empty destination without overwrite was not refused')
                 for p, stt in before.items():
